@@ -22,6 +22,9 @@ def gen_file_special(r):
         for j in range(len(row)):
             if r.random() < 0.12 and j != 2:
                 row[j] = r.choice(SPECIAL_CELLS)
+    if r.random() < 0.3 and recs:
+        # a record whose cells are all empty is a record (`,,,`), not a blank line
+        recs.insert(r.randint(1, len(recs)), [""] * len(recs[0]))
     return recs
 
 
@@ -198,6 +201,23 @@ def case_archive(case):
     if dirs != want_dirs:
         res["oracle"].append({"what": "member directories are not named by identity (or index)", "got": dirs, "want": want_dirs})
         return res
+    # what "the lines collected" are, independently of the archive: the same member run alone (members here have no cross-path
+    # signals; judged only when the lone run is free of errors, whose handling differs between a CsvPath and a CsvPaths)
+    if collects and not any("collect(" in mem["match"] for mem in case["members"]):
+        # (the collect() function narrows lines; in a breadth-first run one member's narrowing reaches the members after it, which
+        # C08 excludes as "line-rewriting functions")
+        import real_run
+
+        lone_path = real_run.write_file("arch_alone.csv", case["recs"], delimiter=dialect[0], quotechar=dialect[1])
+        for pos, m in enumerate(mobs):
+            mem = case["members"][pos]
+            lone_text = member_text(mem).replace("$[", f"${lone_path}[", 1)
+            lone, _ = real_run.run_single(lone_text, "collect", policy=["collect", "print"], delimiter=dialect[0], quotechar=dialect[1])
+            if "parse_error" in lone or lone.get("raised") or lone.get("errors") or m["errors"]:
+                continue
+            if isinstance(m["lines"], list) and lone["lines"] != m["lines"]:
+                res["oracle"].append({"what": "the lines a member's result holds (read back from data.csv) are not the lines the csvpath collects",
+                                      "member": m["identity"], "archived": m["lines"], "collected_alone": lone["lines"]})
     model_members = []
     for m in mobs:
         files = check_member_dir(res, os.path.join(run_dir, str(m["identity"])), m, collects, dialect=dialect)
